@@ -41,6 +41,7 @@ caller's `args` and `kwargs` hold afterwards what they held before.
 """
 import itertools
 import json
+import os
 import shutil
 import tempfile
 
@@ -890,7 +891,36 @@ def evaluate(ctx, cases, obs, tag):
     return nontrivial
 
 
+
+def plain_names_probe(ctx):
+    """Directed: an explicit selection given as plain file NAMES (documented for files=) is mapped like the same selection given as
+    FileInfo objects: one result per name, in the order of the list.  The child runs under a time and an address-space limit."""
+    import subprocess
+    e = dict(os.environ)
+    e.update({"PYTHONPATH": str(core.REPO), "PYTHONHASHSEED": "0", "PYTHONWARNINGS": "ignore"})
+    cmd = f"ulimit -v 4000000; exec timeout 120 {core.PY} -W ignore {core.VERIF / 'tools' / 'harness' / 'c10_names.py'}"
+    pr = subprocess.run(["bash", "-c", cmd], capture_output=True, text=True, env=e, cwd=str(core.VERIF))
+    ctx.cov["evaluations"] += 1
+    want = {"collect": [100, 106, 112, 118],
+            "collect-info": [[f"20180101_{h:02d}0000.txt", 100 + h] for h in (0, 6, 12, 18)],
+            "icollect": [100, 106, 112, 118],
+            "map": [f"20180101_{h:02d}0000.txt" for h in (0, 6, 12, 18)],
+            "imap-content": [119, 113, 107, 101]}
+    try:
+        got = json.loads(pr.stdout.strip().splitlines()[-1])
+    except Exception:  # noqa
+        ctx.fail("failing-input", f"collect / map with files= given as four plain file names did not return within 120 s and 4 GB "
+                 f"(rc {pr.returncode}): {(pr.stderr or pr.stdout)[-200:]!r}", case={"files": "plain names"}, signature="files-as-names")
+        return
+    for k_, w_ in want.items():
+        if got.get(k_) != w_:
+            ctx.fail("failing-input", f"{k_} with files= given as plain file names returns {str(got.get(k_))[:160]}, one result per name in "
+                     f"list order is {w_}", case={"files": "plain names", "api": k_}, impl=got.get(k_), model=w_, signature="files-as-names")
+            return
+
+
 def run(ctx):
+    plain_names_probe(ctx)
     ctx.prove("Props/C10.v")
     rng = ctx.rng
     cases = []
